@@ -142,6 +142,22 @@ def register(gen, T):
         }
         for k, v in macrofacts.items():
             out.append(f"def {k} : Bool := {'true' if v else 'false'}\n")
+        # where the search for the next macro goes on after an expansion (seeded mutant C14-7): find_single_macro starts at
+        # `early_function_pos`, and the User arm of apply_single_macro sets that to the START of the replaced region -- the
+        # region may END with a line break (trim_whitespace_end keeps an `Endline`, so an argument `INC<newline>` keeps it),
+        # so the name in front of it is only found when the scan starts at the first token of the region
+        twe = normws(fn_body(pre, "trim_whitespace_end"))
+        resume = {
+            "earlyFunctionPosIsRegionStart": bool(
+                re.search(r'tokens\.splice\(pos\.\.end, output\); let new_end = pos \+ tokens_added;', asm)
+                and re.search(r'Ok\(MacroSearchPosition \{ next_pos: new_end, early_function_pos: pos, last_macro_function_index: if macro_def\.is_function \{ macro_index \} else \{ usize::MAX \}, \}\)', asm)),
+            "findMacroScansFromEarlyFunctionPos": bool(
+                re.search(r'assert!\(search_pos\.early_function_pos <= search_pos\.next_pos\); let mut i = search_pos\.early_function_pos; while i < tokens\.len\(\) \{', fsm)),
+            "trimEndKeepsEndline": bool(
+                re.search(r'^while let Some\(\(PreprocessToken\(tok, _\), rest\)\) = tokens\.split_last\(\) \{ if tok\.is_whitespace\(\) && \*tok != Token::Endline \{ tokens = rest; \} else \{ break; \} \} tokens$', twe)),
+        }
+        for k, v in resume.items():
+            out.append(f"def {k} : Bool := {'true' if v else 'false'}\n")
         # the lexer produces the four whitespace kinds from these spellings
         lex = T.src("preprocess/src/lexer.rs")
         wsimple = normws(fn_body(lex, "whitespace_simple"))
